@@ -4,16 +4,13 @@
 
     The full algorithmic theorems
 
-      partition_correct : forall seqs r, SWO ltb -> seqs <> [] -> all non-empty -> all_sorted ltb seqs ->
+      partition_correct : forall seqs r, SWO ltb -> dflt seqs <> None -> any_empty seqs = false -> all_sorted ltb seqs ->
           r <= total seqs -> partition ltb seqs (Z.of_nat r) = Some (map Z.of_nat (split_spec ltb seqs r))
-      selection_correct : ... r < total seqs -> exists v off w, selection ltb seqs (Z.of_nat r) = SelOk v off /\
-          select_spec ltb seqs r = Some (w, Z.to_nat off) /\ eqvb ltb v w = true /\ 0 <= off
+      selection_correct : ... r < total seqs -> exists v off, selection ltb seqs (Z.of_nat r) = SelOk v off /\
+          0 <= off /\ check_select ltb seqs r v (Z.to_nat off) = true
 
-    are NOT proved here (the grid invariant of the halving loop with its clamping of a[i] did not fit the
-    budget); they are stated here as comments, evaluated exhaustively on a small domain below, and tied to the
-    code by the correspondence run, where every answer of the implementation is decided by [check_split]
-    (proved sound and complete) and by [select_spec] itself. What is proved about the algorithm is
-    [partition_full_rank], [partition_accepted_partial] and the refutation of the shipped variant. *)
+    are proved in MSPCorrect.v and MSPSelect.v (loop invariant: MSPLoop.v, initial partition: MSPInit.v); this file
+    keeps the earlier partial results and the bounded-exhaustive evaluations. *)
 From Coq Require Import List Bool Arith ZArith Lia.
 From TLXV Require Import Common.Order C08.MSP C08.MSPSpec C08.MSPCheck.
 Import ListNotations.
